@@ -61,7 +61,17 @@ def confirm(v):
     return a != b, '%s | %s' % (a, b)
 
 
-def validate(prog, rng, n):
+def validate(prog, rng, n, rep=None):
+    if rep is not None:
+        pairs = []
+        for k in range(n):
+            x = rng.choice([0, 1, -1, 7, 12, -450, 10 ** rng.randint(0, 12), rng.randint(-10 ** 9, 10 ** 9)])
+            s, i, j = rng.randint(-40, 40), rng.randint(0, 40), rng.randint(0, 40)
+            pairs.append((x, s, i, j))
+        outs = H.replay_lines([ln for (x, s, i, j) in pairs for ln in ('hash\t%s' % H.dec_str(x * 10 ** i, s + i), 'hash\t%s' % H.dec_str(x * 10 ** j, s + j))])
+        for k, (x, s, i, j) in enumerate(pairs):
+            if outs[2 * k] != outs[2 * k + 1]:
+                H.probe_violation(rep, PROP, 'native hash streams of the equal values %d@%d and %d@%d differ' % (x * 10 ** i, s + i, x * 10 ** j, s + j), {'L': 0, 'i': i, 'j': j, 'slo': s, 'shi': s, 'probe': True}, {'n': abs(x), 's': s, 'neg': x < 0}, outs[2 * k] + ' | ' + outs[2 * k + 1])
     cases = []
     for k in range(n):
         x = rng.choice([0, 1, -1, 10, 100, 12300, -4500, rng.randint(-10 ** 12, 10 ** 12), 10 ** rng.randint(0, 15)])
@@ -103,7 +113,7 @@ def main(tier):
                        'BigInt::to_str_radix renders sign and decimal digits (num-bigint contract)']
     rep.outside = ['|scale| beyond the bound (the hash materialises |scale| zeros)', 'more than D significant digits']
     sys.stderr.write('[C03] %d tasks\n' % len(tasks))
-    rep.validated, rep.validation_mismatches = validate(prog, rng, 200 if tier == 'quick' else 2000)
+    rep.validated, rep.validation_mismatches = validate(prog, rng, 200 if tier == 'quick' else 2000, rep)
     results = H.run_parallel(tasks, worker, progress=200)
     rep.add(results)
     for r in results:
